@@ -66,6 +66,16 @@ func (fc *fctx) instr(ins ssa.Instruction) {
 		}
 	case *ssa.Store:
 		fc.derefCheck(x.Addr, x.Pos())
+		if len(tr.protected) > 0 && !addrOfLocal(x.Addr) {
+			// a store through a pointer that was loaded or received: it cannot designate a local whose address never
+			// leaves the function (that address is stored nowhere)
+			var cs []string
+			base := "(obase " + fc.val(x.Addr).E() + ")"
+			for _, a := range tr.protected {
+				cs = append(cs, not(eq(base, a)))
+			}
+			tr.assume(and(cs...))
+		}
 		et := x.Addr.Type().Underlying().(*types.Pointer).Elem()
 		tr.storeTag(fc.val(x.Addr).E(), et, fc.val(x.Val), fc.addrTag(x.Addr))
 	case *ssa.UnOp:
@@ -216,6 +226,24 @@ func (fc *fctx) instr(ins ssa.Instruction) {
 		unsup("instruction %T", ins)
 	default:
 		unsup("instruction %T", ins)
+	}
+}
+
+// addrOfLocal: the address is computed from a local allocation of this function (field / element of an Alloc)
+func addrOfLocal(v ssa.Value) bool {
+	for {
+		switch x := v.(type) {
+		case *ssa.Alloc:
+			return true
+		case *ssa.FieldAddr:
+			v = x.X
+		case *ssa.IndexAddr:
+			v = x.X
+		case *ssa.ChangeType:
+			v = x.X
+		default:
+			return false
+		}
 	}
 }
 
